@@ -1,7 +1,9 @@
 package props
 
 import (
+	"bytes"
 	"fmt"
+	"go/printer"
 	"go/ast"
 	"go/token"
 	"go/types"
@@ -342,7 +344,18 @@ func branchStart(g *core.Graph, is *ast.IfStmt, then bool) (*core.Point, bool) {
 	return &core.Point{B: cb.Succs[k], I: -1}, true
 }
 
-func exprStr(e ast.Expr) string { return types.ExprString(e) }
+// exprStr renders an expression in full (types.ExprString elides composite
+// literal bodies and function literals).
+func exprStr(e ast.Expr) string {
+	if e == nil {
+		return ""
+	}
+	var buf bytes.Buffer
+	if err := printer.Fprint(&buf, token.NewFileSet(), e); err != nil {
+		return types.ExprString(e)
+	}
+	return buf.String()
+}
 
 // recvIdent returns the receiver name of a method declaration.
 func recvIdent(f *core.Func) string {
